@@ -291,7 +291,7 @@ pub fn featdigest(tier: Tier, seed: u64) {
 }
 
 pub fn run_c12(run: &Run) {
-    run.set_rule("the same harness is compiled against the library under each feature combination (quick: default + 4 corner sets, thorough: all 12); every build runs, in-process and against the definitional oracle: all semantics incl. counting-guided and nogood searches on A(2) and F(3,2) (thorough: + a residue class of A(3)); every query (paths, models, depth, dependencies, cubes) on every node of every function of <= 3 variables (4 variables strided in quick), each query also as the FIRST query on a never-counted and on a freshly restricted diagram; a store exploration with all invariants incl. serde re-import followed by restrictions; persistence round trips and all call histories of length <= 2 on A(2). The case counts of all builds must agree, and no build may deviate from the oracle; the documented exception (memoised model counts with adhoccounting but without adhoccountmodels) is masked by name. Non-trivial: (feature set, section) pairs other than the default build.");
+    run.set_rule("the same harness is compiled against the library under each feature combination (quick: default + 4 corner sets, thorough: all 12); every build runs, in-process and against the definitional oracle: all semantics incl. counting-guided and nogood searches on A(2) and F(3,2) (thorough: + a residue class of A(3)); every query (paths, models, depth, dependencies, cubes) on every node of every function of <= 3 variables (4 variables strided in quick), each query also as the FIRST query on a never-counted and on a freshly restricted diagram; a store exploration with all invariants incl. serde re-import followed by restrictions; persistence round trips and all call histories of length <= 2 on A(2). The CLI binary is built under the same feature sets and run directly (naive, hybrid) and through --export followed by --import on fixed files and ring ADFs. The case counts of all builds must agree, and no build may deviate from the oracle; the documented exception (memoised model counts with adhoccounting but without adhoccountmodels) is masked by name. Non-trivial: (feature set, section) pairs other than the default build.");
     run.assume("the feature sets are the 12 combinations of {none, adhoccounting, adhoccountmodels} x {variablelist} x {frontend}; HashSet/importexport/benchmark are aliases or empty features");
     let bins: std::collections::BTreeMap<String, String> = match std::env::var("ADFMC_FEATURE_BINS").ok().and_then(|s| serde_json::from_str(&s).ok()) {
         Some(b) => b,
@@ -314,10 +314,13 @@ pub fn run_c12(run: &Run) {
         }
         let digests: Vec<String> = so.lines().filter(|l| l.starts_with("FD-DIGEST")).map(String::from).collect();
         sections += digests.len() as u64;
+        // the number of distinct store states depends on the feature set by construction (the state key holds the
+        // bookkeeping tables, which some feature sets do not have), so it is reported but not compared
+        let comparable = |d: &Vec<String>| -> Vec<String> { d.iter().filter(|l| !l.starts_with("FD-DIGEST store-states")).cloned().collect() };
         match &reference {
             None => reference = Some(digests.clone()),
             Some(r) => {
-                if r != &digests {
+                if comparable(r) != comparable(&digests) {
                     run.violation("feature-build:coverage-differs", format!("features [{}] ran {:?}, the default build {:?}", fs, digests, r), json!({"features": fs, "inner_property": "none", "inner_case": {}}));
                 }
             }
@@ -336,11 +339,92 @@ pub fn run_c12(run: &Run) {
         run.add_counts(nums.iter().sum::<u64>(), nums.iter().sum::<u64>() * 4, nums.iter().sum::<u64>(), if fs == "(default)" { 0 } else { digests.len() as u64 });
         run.add_outcomes([hash64(fs.as_bytes())]);
     }
+    cli_under_features(run);
     run.extra("feature_sets", json!(all.iter().map(|x| x.0.clone()).collect::<Vec<_>>()));
     run.extra("sections_compared", json!(sections));
     run.sample(json!({"features": "(none)", "inner_property": "C12-cold", "inner_case": {"type": "cold", "tt": 0x96, "vars": 3}}));
     run.extra("states_are", json!("cases (ADFs, functions, store states, call sequences) executed over all feature builds"));
     run.extra("transitions_are", json!("approximate number of API calls judged against the oracle over all feature builds"));
+}
+
+/// the CLI binary built under each feature set: direct runs, and export followed by import with the same binary, on
+/// the fixed files and on ring ADFs (whose searches create nodes that did not exist at export time)
+fn cli_under_features(run: &Run) {
+    use crate::c15::{cli_case_x, fixed_inputs, Extra, Input};
+    use crate::cli::run_cli;
+    let clis: std::collections::BTreeMap<String, String> = match std::env::var("ADFMC_FEATURE_CLIS").ok().and_then(|s| serde_json::from_str(&s).ok()) {
+        Some(b) => b,
+        None => {
+            run.add_family(FamilyCov { name: "CLI under each feature set".into(), size: 1, done: 0, exhaustive: false, note: "ADFMC_FEATURE_CLIS not set: skipped".into() });
+            return;
+        }
+    };
+    let mut all: Vec<(String, String)> = vec![];
+    if let Ok(c) = std::env::var("ADF_BDD_CLI") {
+        all.push(("(default)".to_string(), c));
+    }
+    all.extend(clis.iter().map(|(k, v)| (if k.is_empty() { "(none)".to_string() } else { k.clone() }, v.clone())));
+    let mut inputs: Vec<Input> = fixed_inputs();
+    for k in 0..(if run.quick() { 8u64 } else { 40 }) {
+        let n = 6 + (k % 2) as usize;
+        let idx = (k * 104729 + run.seed * 17 + 5) % crate::mid::ring_size(n);
+        let l = crate::mid::ring(n, idx);
+        inputs.push(Input { labels: l.labels.clone(), text: l.text(None, ("\n", "", "")), tts: vec![], ring: Some((n, idx)) });
+    }
+    let tmp = crate::cli::TmpDir::new("c12-cli");
+    for (i, inp) in inputs.iter().enumerate() {
+        std::fs::write(format!("{}/in_{}.adf", tmp.0, i), &inp.text).unwrap_or_else(|_| machinery_error("cannot write input file"));
+    }
+    // jobs: (feature set, input, kind) - kind 0: direct naive, 1: direct hybrid, 2: export + import with the same binary
+    let mut jobs: Vec<(usize, usize, usize)> = vec![];
+    for f in 0..all.len() {
+        for i in 0..inputs.len() {
+            for kind in 0..3 {
+                jobs.push((f, i, kind));
+            }
+        }
+    }
+    let res = run.par_family(
+        &format!("the CLI built under {} feature sets x {} inputs x {{naive, hybrid, export + import}} x {{grd+com+stm, grd+stmng+twoval}}", all.len(), inputs.len()),
+        jobs.len() as u64,
+        || 0u64,
+        |st, j| {
+            let (f, i, kind) = jobs[j as usize];
+            let (fs, cli) = &all[f];
+            let inp = &inputs[i];
+            let path = format!("{}/in_{}.adf", tmp.0, i);
+            for flags in [0b111u32, (1 << 8) | (1 << 9) | 1] {
+                *st += 1;
+                let found = if kind < 2 {
+                    cli_case_x(cli, &path, inp, ["naive", "hybrid"][kind], i % 3, flags, None, Extra::default())
+                } else {
+                    let exp = format!("{}/exp_{}_{}_{}.json", tmp.0, f, i, flags);
+                    let _ = std::fs::remove_file(&exp);
+                    let o = run_cli(cli, &["--lib".into(), "naive".into(), "-q".into(), "--export".into(), exp.clone(), path.clone()]);
+                    if o.code != Some(0) {
+                        vec![("export:exit".to_string(), format!("--export exits with {:?}", o.code))]
+                    } else {
+                        let r = cli_case_x(cli, &exp, inp, "naive", 0, flags, None, Extra { import: true, ..Extra::default() });
+                        let _ = std::fs::remove_file(&exp);
+                        r
+                    }
+                };
+                for (kind_s, msg) in found {
+                    let fl: Vec<&str> = (0..10).filter(|b| flags >> b & 1 == 1).map(|b| crate::c15::FLAGS[b]).collect();
+                    run.violation(
+                        &format!("[{}] cli:{}{}", fs, if kind == 2 { "import:" } else { "" }, kind_s),
+                        format!("{} [binary built with features [{}], {} {}] on {}", msg, fs, ["--lib naive", "--lib hybrid", "--lib naive --export, then --import with"][kind], fl.join(" "), inp.text.replace('\n', "")),
+                        json!({"features": fs, "inner_property": "C12-cli", "inner_case": {"text": inp.text, "labels": inp.labels, "tts": inp.tts, "ring": inp.ring.map(|r| vec![r.0 as u64, r.1]), "kind": kind, "flags": flags, "sort": i % 3}}),
+                    );
+                }
+            }
+        },
+        &|j| json!({"features": all[jobs[j as usize].0].0, "inner_property": "C12-cli", "inner_case": {"job": j}}),
+    );
+    for st in res {
+        run.add_counts(0, st, st, st);
+    }
+    drop(tmp);
 }
 
 /// replay of a C12 record: re-run the inner case with the binary of the feature set
@@ -349,6 +433,31 @@ pub fn replay(c: &Value) -> Vec<(String, String)> {
     let inner_prop = c["inner_property"].as_str().unwrap_or("none");
     if inner_prop == "none" {
         return vec![("feature-build".into(), "re-run the check".into())];
+    }
+    if inner_prop == "C12-cli" {
+        use crate::c15::{cli_case_x, Extra, Input};
+        let ic = &c["inner_case"];
+        let name = if fs == "(none)" { "none".to_string() } else { fs.replace(',', "+") };
+        let cli = if fs == "(default)" { crate::cli::cli_path() } else { format!("{}/.build/clifeat/{}/debug/adf-bdd", VERIF_DIR, name) };
+        let tmp = crate::cli::TmpDir::new("c12-cli-replay");
+        let inp = Input {
+            labels: ic["labels"].as_array().map(|a| a.iter().map(|x| x.as_str().unwrap_or("").to_string()).collect()).unwrap_or_default(),
+            text: ic["text"].as_str().unwrap_or("").to_string(),
+            tts: ic["tts"].as_array().map(|a| a.iter().map(|x| x.as_u64().unwrap_or(0) as TT).collect()).unwrap_or_default(),
+            ring: ic.get("ring").and_then(|r| Some((r[0].as_u64()? as usize, r[1].as_u64()?))),
+        };
+        let path = format!("{}/in.adf", tmp.0);
+        let _ = std::fs::write(&path, &inp.text);
+        let (kind, flags, sort) = (ic["kind"].as_u64().unwrap_or(0) as usize, ic["flags"].as_u64().unwrap_or(7) as u32, ic["sort"].as_u64().unwrap_or(0) as usize);
+        if kind < 2 {
+            return cli_case_x(&cli, &path, &inp, ["naive", "hybrid"][kind], sort, flags, None, Extra::default());
+        }
+        let exp = format!("{}/exp.json", tmp.0);
+        let o = crate::cli::run_cli(&cli, &["--lib".into(), "naive".into(), "-q".into(), "--export".into(), exp.clone(), path.clone()]);
+        if o.code != Some(0) {
+            return vec![("export:exit".to_string(), format!("--export exits with {:?}", o.code))];
+        }
+        return cli_case_x(&cli, &exp, &inp, "naive", 0, flags, None, Extra { import: true, ..Extra::default() });
     }
     let own = feature_string();
     let wanted = if fs == "(default)" { "adhoccounting,variablelist,frontend".to_string() } else if fs == "(none)" { String::new() } else { fs.to_string() };
